@@ -83,8 +83,11 @@ MUTANTS = {
  'C19': [
   ('struct_cache_by_len', 'struct-sequence field-name cache keyed by field count',
    [(PP, "    cls = type(value)\n    if cls not in _cnamedtuple_fieldnames_by_class:", "    cls = type(value)\n    key = len(value)\n    if key not in _FIELDNAMES_BY_LEN:"),
-    (PP, "        _cnamedtuple_fieldnames_by_class[cls] = fieldnames\n\n    fieldnames = _cnamedtuple_fieldnames_by_class[cls]", "        _FIELDNAMES_BY_LEN[key] = fieldnames\n\n    fieldnames = _FIELDNAMES_BY_LEN[key]"),
+    (PP, "        _cnamedtuple_fieldnames_by_class[cls] = (\n            resolve_cnamedtuple_fieldnames(value)\n        )\n\n    fieldnames = _cnamedtuple_fieldnames_by_class[cls]", "        _FIELDNAMES_BY_LEN[key] = (\n            resolve_cnamedtuple_fieldnames(value)\n        )\n\n    fieldnames = _FIELDNAMES_BY_LEN[key]"),
     (PP, "_cnamedtuple_fieldnames_by_class = WeakKeyDictionary()", "_cnamedtuple_fieldnames_by_class = WeakKeyDictionary()\n_FIELDNAMES_BY_LEN = {}")]),
+  ('struct_failure_cached', 'pre-0483a8f: a field-name resolution failure is cached per class and names come from ast.parse(repr)',
+   [(PP, "        _cnamedtuple_fieldnames_by_class[cls] = (\n            resolve_cnamedtuple_fieldnames(value)\n        )\n", "        try:\n            _cnamedtuple_fieldnames_by_class[cls] = resolve_cnamedtuple_fieldnames(value)\n        except Exception:\n            _cnamedtuple_fieldnames_by_class[cls] = ()\n"),
+    (PP, "        if not fieldname.isidentifier():", "        if not fieldname.isidentifier() or '<' in text:")]),
   ('deque_rotated', 'deque printer rotates its argument',
    [(STD, "    kwargs = []\n    if value.maxlen is not None:", "    value.rotate(1)\n    kwargs = []\n    if value.maxlen is not None:")]),
   ('defaultdict_indexed', 'defaultdict printer indexes a missing key',
